@@ -10,6 +10,7 @@ import (
 	"sort"
 	"strconv"
 	"strings"
+	"time"
 
 	"reservoir/zzverif/vnet"
 	"reservoir/zzverif/vrun"
@@ -381,6 +382,42 @@ func scenarioConnectTargets(c *vrun.Ctx) {
 			t.Close()
 			c.Outcome("ok:" + hostClass(h))
 		}
+	}
+	// positions of certificate expiry in a history of tunnels to one target (through the real
+	// handleCONNECT, verified by the client at the virtual time): every history over {open a tunnel
+	// to h:443, open one to h:8443, +239 h, +2 h} of length 4
+	evs := []string{"t443", "t8443", "+239h", "+2h"}
+	for hi := 0; hi < 4*4*4*4; hi++ {
+		i++
+		if !c.Mine(i) {
+			continue
+		}
+		c.Case()
+		host := "expiry-" + strconv.Itoa(hi) + ".test"
+		var hist []string
+		x := hi
+		for k := 0; k < 4; k++ {
+			hist = append(hist, evs[x%4])
+			x /= 4
+		}
+		for step, ev := range hist {
+			switch ev {
+			case "+239h":
+				vtime.Advance(239 * time.Hour)
+			case "+2h":
+				vtime.Advance(2 * time.Hour)
+			default:
+				target := host + ":" + ev[1:]
+				t, cr := env.srv.OpenTunnel(target, env.tlsConfig(host))
+				if t == nil {
+					c.SetCase(strings.Join(hist, " "))
+					c.Violation("C11/connect/history/no-valid-certificate", fmt.Sprintf("step %d of [%s]: CONNECT %s presented no certificate valid at the current time: status %d %s", step+1, strings.Join(hist, " "), target, cr.Status, cr.Err), nil)
+					break
+				}
+				t.Close()
+			}
+		}
+		c.Outcome("expiry-history:" + strings.Join(hist, ","))
 	}
 	for _, m := range malformed {
 		i++
